@@ -191,6 +191,25 @@ func c10RespDiff(a, b c10Resp) string {
 	return "equal"
 }
 
+func (r c10Resp) bag() string { return fmt.Sprintf("%d/%s", r.Status, c10TokenBag(r.Body)) }
+
+// c10WebStable: a response differing from the reference counts only if it is not explained by run-to-run
+// nondeterminism of the page itself (C08). R0 holds the answers of three fresh servers taken BEFORE any
+// other request was served in this process (later fresh servers would share leaked process state):
+// a response whose token bag is in R0 is fine; if the pristine answers themselves disagree the page is
+// incomparable; otherwise the difference is a verdict.
+func c10WebStable(c *Ctx, R0 map[string]bool, got c10Resp, name string) bool {
+	if R0[got.bag()] {
+		c.Res.Hit("C08-run-to-run-order-only-difference:web-" + name)
+		return false
+	}
+	if len(R0) > 1 {
+		c.Res.Hit("C08-run-to-run-nondeterministic-output:web-" + name)
+		return false
+	}
+	return true
+}
+
 func c10Endpoint(path string) string {
 	switch path {
 	case "/":
@@ -228,6 +247,12 @@ func c10WebCase(c *Ctx, cs *c10Case) {
 	}
 	ref := c10Get(h0, cs.Request)
 	dl0 := c10Get(h0, "/download")
+	R0 := map[string]bool{ref.bag(): true}
+	for i := 0; i < 2; i++ {
+		if h, _, err := c10Server(parse()); err == nil {
+			R0[c10Get(h, cs.Request).bag()] = true
+		}
+	}
 	c.Res.Hit(fmt.Sprintf("web-ref-status:%d", ref.Status))
 	ru, _ := url.Parse(cs.Request)
 	name := "other"
@@ -268,13 +293,16 @@ func c10WebCase(c *Ctx, cs *c10Case) {
 		rr := c10Get(h1, o)
 		c.Res.Hit(fmt.Sprintf("web-other-status:%d", rr.Status))
 	}
-	seq := c10Get(h1, cs.Request)
-	if seq != ref {
+	seq := ref
+	if cs.Phase != "conc" {
+		seq = c10Get(h1, cs.Request)
+	}
+	if seq != ref && c10WebStable(c, R0, seq, name) {
 		c.Violation("C10/web/sequence-dependent/"+name, fmt.Sprintf("response to %s after %d other requests differs from the response of a fresh server: %s",
 			cs.Request, len(cs.Others), c10RespDiff(seq, ref)), cs)
 	}
 	// concurrently: three copies of r in the middle of the others, twice
-	for round := 0; round < 2; round++ {
+	for round := 0; round < 2 && cs.Phase != "seq"; round++ {
 		var wg sync.WaitGroup
 		got := make([]c10Resp, 3)
 		for i := range got {
@@ -287,7 +315,7 @@ func c10WebCase(c *Ctx, cs *c10Case) {
 		}
 		wg.Wait()
 		for _, g := range got {
-			if g != ref {
+			if g != ref && c10WebStable(c, R0, g, name) {
 				c.Violation("C10/web/concurrency-dependent/"+name, fmt.Sprintf("response to %s served concurrently with %d other requests differs from the response of a fresh server: %s",
 					cs.Request, len(cs.Others), c10RespDiff(g, ref)), cs)
 				break
@@ -296,7 +324,7 @@ func c10WebCase(c *Ctx, cs *c10Case) {
 	}
 	// the first server again (it has seen nothing but r): state shared between servers of one process
 	again := c10Get(h0, cs.Request)
-	if again != ref {
+	if again != ref && c10WebStable(c, R0, again, name) {
 		c.Violation("C10/web/process-state-dependent/"+name, "the same request on the first server differs after another server of the process served other requests: "+c10RespDiff(again, ref), cs)
 	}
 	// /download still serves the profile that was loaded
